@@ -423,6 +423,31 @@ Proof. exact interp_call_float_ok. Qed.
 Print Assumptions call_returns_model_values.
 
 (* ------------------------------------------------------------------ *)
+(* T17 (calling conventions by shape).  [array_call_shape d xshape] (C15/Call.v) composes the
+   REGENERATED _check_interp_input / is_valid_input_array / out_shape_from_array with the
+   reshape of _Interpolator.__call__: None = ValueError, Some [] = scalar, Some [N] = N values.
+   For every grid dimension d >= 1 and EVERY input shape it equals the documented table
+   [conv_ref]:  d = 1: () -> scalar, (n,) -> n values, (1, n) -> n values;
+                d > 1: (d,) -> scalar, (d, n) -> n values;  everything else is rejected. *)
+Theorem calling_conventions_by_shape : forall (d : nat) (xshape : list nat), (1 <= d)%nat ->
+  array_call_shape d xshape =
+  if (d =? 1)%nat then
+    match xshape with
+    | [] => Some []
+    | [n] => Some [n]
+    | [a; n] => if (a =? 1)%nat then Some [n] else None
+    | _ => None
+    end
+  else
+    match xshape with
+    | [a] => if (a =? d)%nat then Some [] else None
+    | [a; n] => if (a =? d)%nat then Some [n] else None
+    | _ => None
+    end.
+Proof. exact array_call_shape_ref. Qed.
+Print Assumptions calling_conventions_by_shape.
+
+(* ------------------------------------------------------------------ *)
 (* T16 (transfer).  What the correspondence shards execute at Q (vm_compute on the SAME
    polymorphic definitions, regenerated helpers included) is the rational restriction of what the
    theorems above are about at R: Q2R commutes with the whole interpolator call, with mesh
